@@ -1,2 +1,3 @@
 import YardlModel.Wire
 import YardlModel.Streams
+import YardlModel.Batch
